@@ -1,6 +1,6 @@
 (* C22: deadlines and cancellation propagate to both ends.
    Theorems only; each is closed by [exact] of a lemma from proof/Deadline_proofs.v.
-   Model: coq/model/Deadline.v (a table of the six client blocking points, each a select
+   Model: coq/model/Deadline.v (a table of the seven client blocking points, each a select
    that includes the RPC context, and the server's deadline = arrival + decodeTimeout(
    EncodeDuration(remaining)) using the C07 model Timeout.v).  PARTIAL by design: "within a
    bounded time" is a latency statement about goroutine scheduling that a model cannot give;
@@ -14,7 +14,7 @@ Open Scope Z_scope.
 
 (* "terminates on the client with DEADLINE_EXCEEDED or CANCELLED ... regardless of where it is
    blocked (picking, waiting for stream quota, flow control, receive)": for every blocking
-   point 1..6 (6 = a unary RPC stalled in the middle of a response message) and both ways a context becomes done, the blocked call returns (latency 0 in the
+   point 1..7 (6 = a unary RPC stalled in the middle of a response message, 7 = the back-off sleep before a retry) and both ways a context becomes done, the blocked call returns (latency 0 in the
    model) with CANCELLED (1) after a cancellation and DEADLINE_EXCEEDED (4) after the deadline *)
 Theorem C22_every_block_has_ctx_partial : forall point kind t d, op_ok [point; kind; t; d] = true ->
   exists o, run_op [point; kind; t; d] = Some o /\
@@ -29,6 +29,14 @@ Theorem C22_mid_message_block_partial : forall kind t d, op_ok [6; kind; t; d] =
   run_op [6; kind; t; d] = Some [status_of kind; 0; 0; 0; 1].
 Proof. exact mid_message_block. Qed.
 Print Assumptions C22_mid_message_block_partial.
+
+(* the seventh blocking point spelled out: an RPC sleeping in the retry back-off (its first
+   attempt was answered trailers-only with a retryable status) ends with the status of its
+   context - CANCELLED / DEADLINE_EXCEEDED, not the failed attempt's status - at latency 0 *)
+Theorem C22_retry_backoff_block_partial : forall kind t d, op_ok [7; kind; t; d] = true ->
+  run_op [7; kind; t; d] = Some [status_of kind; 0; 1; server_timeout d - d; 1].
+Proof. exact retry_backoff_block. Qed.
+Print Assumptions C22_retry_backoff_block_partial.
 
 (* "The server handler's context carries a deadline no earlier than the client's remaining
    time at send": for every remaining time d (ns) that fits an int64 the handler's timeout
